@@ -54,7 +54,7 @@ def suites(tier, seed):
     s.append(dict(name="E2 1+1 x 2 ops (exhaustive)", weak=0, pb=None, mode="dfs",
                   plans=sorted(set("set/%s" % p for p in e2)), exhaustive=True))
     # E3: two observers, one op each - exhaustive (a bystander sampling Ready()/Touch() next to an attach, ...)
-    e3 = ["i.r"] if not thorough else ["i.r", "i.p", "k.z", "m.z", "g.i"]
+    e3 = ["i.r", "i.i"] if not thorough else ["i.r", "i.p", "k.z", "m.z", "g.i", "i.i", "s.k"]
     s.append(dict(name="E3 1+2 x 1 op (exhaustive)", weak=0, pb=None, mode="dfs", maxexec=3000000,
                   plans=["set/%s" % p for p in e3], exhaustive=True))
     # B: two observers, up to two ops each - preemption-bounded DFS
@@ -79,6 +79,14 @@ def suites(tier, seed):
         pl.append("%s/%s" % (f, ".".join(obs)))
     s.append(dict(name="R 1+3..4 x <=4 ops (seeded random, weak 1)", weak=1, pb=None, mode="random",
                   maxexec=600 if thorough else 150, plans=sorted(set(pl)), exhaustive=False, seed=seed))
+    # every DFS suite a second time with the switch offered right AFTER an operation instead of before it: the plain code
+    # that follows an operation (e.g. a store into a node that was just published) then is a separate step; the random
+    # suite offers the switch at both places
+    for su in list(s):
+        if su["mode"] == "dfs":
+            s.append(dict(su, name=su["name"] + " [switch after the operation]", yield_at="after"))
+        else:
+            su["yield_at"] = "both"
     return s
 
 
@@ -86,6 +94,8 @@ def harness_args(su, plans):
     a = ["--mode", su["mode"], "--weak", str(su["weak"]), "--param", "plans=" + ";".join(plans)]
     if su.get("pb") is not None:
         a += ["--pb", str(su["pb"])]
+    if su.get("yield_at"):
+        a += ["--yield-at", su["yield_at"]]
     if su.get("maxexec"):
         a += ["--max", str(su["maxexec"])]
     if su["mode"] == "random":
@@ -190,7 +200,7 @@ def main(ck):
             crashes.append(dict(what="harness crashed on %s (rc=%d) %s" % (p["scenario"], p["rc"], p["text"]),
                                 key="crash:" + p["scenario"].split("/")[0],
                                 replay=dict(harness="h_c06", scenario=p["scenario"], choices=p["choices"],
-                                            weak=su["weak"], pb=su.get("pb"))))
+                                            weak=su["weak"], pb=su.get("pb"), yield_at=su.get("yield_at"))))
     ck.cov["evaluations"] = sum(h["executions"] for h in heads)
     ck.cov["scenarios"] = len(heads)
     ck.cov["suites"] = per_suite
@@ -207,7 +217,8 @@ def main(ck):
         key = re.sub(r"\d+", "N", t["fail"])[:60]
         ck.hits.append(dict(what="%s: %s" % (t["scenario"], t["fail"]), key=key,
                             replay=dict(harness="h_c06", scenario=t["scenario"], choices=t["choices"], trace=t["trace"],
-                                        weak=t["_suite"]["weak"], pb=t["_suite"].get("pb"))))
+                                        weak=t["_suite"]["weak"], pb=t["_suite"].get("pb"),
+                                        yield_at=t["_suite"].get("yield_at"))))
         seen_keys.add(key)
     ck.hits += crashes
     # ---- correspondence: replay every distinct trace through the model inside Coq
@@ -279,6 +290,8 @@ def replay(ck, path):
             "--weak", str(rp.get("weak") or 0)]
     if rp.get("pb") is not None:
         args += ["--pb", str(rp["pb"])]
+    if rp.get("yield_at"):
+        args += ["--yield-at", rp["yield_at"]]
     rows, out, err, rc = runner.run_harness(exe, args)
     print(out)
     bad = any(r.get("fail") for r in rows if "trace" in r)
